@@ -71,6 +71,7 @@ def run(ctx):
     ctx.assumptions += ["number words and unit words are those of the frozen lexicon (standard spellings sechzehn, siebenundzwanzig, "
                         "einunddreissig included by review)"]
     ctx.mc("MC_Denote", "MC_Denote_C08_q.cfg" if ctx.quick else "MC_Denote_C08_t.cfg", timeout=3000)
+    common.random_rows_stage(ctx, "C08")
     # lexicon rows: every number word x every unit word; digits 0..120
     cases = []
     for u in UNITS:
